@@ -36,6 +36,20 @@ CB_PDUS = {
 ENC_REQ = "3:03" + "8877665544332211" + "3412" + "a0a1a2a3a4a5a6a7" + "b0b1b2b3"
 
 
+def without_encryption_pdus(ops):
+    """random sessions of C29 must not depend on the repair of C28 (fix/C28-start-enc-rsp-state changes what unsolicited
+    encryption PDUs do): drop LL_ENC_REQ / LL_START_ENC_RSP / LL_PAUSE_ENC_REQ / LL_PAUSE_ENC_RSP from them; the `changed`
+    callbacks of a proper encryption procedure are covered by the hand made cases"""
+    out = []
+    for o in ops:
+        w = o.split()
+        if w and w[0] == "ev":
+            w = w[:2] + [p for p in w[2:] if not (p.startswith("3:03") or p.startswith("3:06") or p.startswith("3:0a") or p.startswith("3:0b"))]
+            o = " ".join(w)
+        out.append(o)
+    return out
+
+
 def burst(word):
     return " ".join(CB_PDUS[ch](i) for i, ch in enumerate(word))
 
@@ -116,7 +130,7 @@ class C29(LLCheck):
                 ops = ["run"]
                 for _ in range(rng.choice([1, 2, 3])):
                     s = session(rng, v, rng.choice([8, 20]), instants=False, api=(k % 2 == 0), blocking=(k % 3 == 0))
-                    ops += [o for o in s[1:] if not o.startswith("cancel")]
+                    ops += without_encryption_pdus([o for o in s[1:] if not o.startswith("cancel")])
                     ops += rng.choice([["ev 0 " + TERMINATE], ["timeout"] * 30, ["disconnect", "ev 0", "ev 0", "ev 0"], []])
                 cases.append(mk("rnd", v, ops))
         return cases
@@ -127,7 +141,7 @@ class C29(LLCheck):
         for v in self.variants(ctx):
             for _ in range(150):
                 s = session(rng, v, 30, instants=False)
-                out.append(self.mk("s", v, [o for o in s if not o.startswith("cancel")] + ["ev 0 " + TERMINATE, connect_ind(), "ev 0"]))
+                out.append(self.mk("s", v, without_encryption_pdus([o for o in s if not o.startswith("cancel")]) + ["ev 0 " + TERMINATE, connect_ind(), "ev 0"]))
         return out
 
     def nontrivial(self, case, outputs):
